@@ -448,6 +448,14 @@ def build(p):
   v_save_checkpoint(p)
   from . import C09_run
   C09_run.build(p)
+  # "round-indexed client sampler": the resume argument needs the sampler of the re-run (a NEW process) to return, at round r,
+  # what the original run returned: the sampler contracts of C13 (terms over (seed, round) and the dataset's enumeration order
+  # only - no hash-ordered container) are obligations of C09 too, with the cross-process restart check
+  from . import C13
+  p.native('UniformGetClientSampler', 'native/C13.py', 'restart')
+  p.native('get_pseudo_random_state', 'native/C13.py', 'get')
+  C13.v_prs(p)
+  C13.v_get_sampler(p)
   p.trust('T-IO: each tf.io.gfile / os primitive (open-for-write, write, close, rename, remove, glob) is one '
           'atomic effect; rename is atomic and replaces its target; pickle.load(pickle.dump(x)) == x',
           'T-PY: sorted(list, key=f) returns a permutation in ascending key order; f"{r:08d}" is exactly 8 '
